@@ -653,7 +653,7 @@ impl<'tcx> Dumper<'tcx> {
         J::Obj(vec![("l", J::Num(p.local.as_u32() as i128)), ("p", J::Arr(projs))])
     }
 
-    fn const_j(&self, c: &mir::ConstOperand<'tcx>) -> J {
+    fn const_j(&self, c: &mir::ConstOperand<'tcx>, owner: DefId) -> J {
         let tcx = self.tcx;
         let t = c.const_.ty();
         let mut o: Vec<(&'static str, J)> = Vec::new();
@@ -661,6 +661,13 @@ impl<'tcx> Dumper<'tcx> {
         if let ty::FnDef(did, args) = t.kind() {
             o.push(("fn", s(self.path(*did))));
             o.push(("fn_args", J::Arr(args.iter().map(|a| s(pp!((format!("{}", a))))).collect())));
+            let env = ty::TypingEnv::post_analysis(tcx, owner);
+            if let Ok(Some(inst)) = ty::Instance::try_resolve(tcx, env, *did, args) {
+                let rd = inst.def_id();
+                if rd != *did {
+                    o.push(("fn_resolved", s(self.path(rd))));
+                }
+            }
         } else {
             let txt = pp!((format!("{}", c.const_)));
             o.push(("txt", s(txt)));
@@ -680,7 +687,7 @@ impl<'tcx> Dumper<'tcx> {
         match op {
             mir::Operand::Copy(p) => J::Obj(vec![("copy", self.place(body, p))]),
             mir::Operand::Move(p) => J::Obj(vec![("move", self.place(body, p))]),
-            mir::Operand::Constant(c) => J::Obj(vec![("const", self.const_j(c))]),
+            mir::Operand::Constant(c) => J::Obj(vec![("const", self.const_j(c, body.source.def_id()))]),
             #[allow(unreachable_patterns)]
             _ => J::Obj(vec![("other", s(format!("{:?}", op)))]),
         }
@@ -866,7 +873,16 @@ impl<'tcx> Dumper<'tcx> {
                             let mut go: Vec<(&'static str, J)> = vec![("txt", s(pp!((format!("{}", a)))))];
                             if let Some(t) = a.as_type() {
                                 match t.kind() {
-                                    ty::FnDef(d, _) => go.push(("fn", s(self.path(*d)))),
+                                    ty::FnDef(d, fa) => {
+                                        go.push(("fn", s(self.path(*d))));
+                                        go.push(("fn_args", J::Arr(fa.iter().map(|a| s(pp!((format!("{}", a))))).collect())));
+                                        let env = ty::TypingEnv::post_analysis(tcx, ldid.to_def_id());
+                                        if let Ok(Some(inst)) = ty::Instance::try_resolve(tcx, env, *d, fa) {
+                                            if inst.def_id() != *d {
+                                                go.push(("fn_resolved", s(self.path(inst.def_id()))));
+                                            }
+                                        }
+                                    }
                                     ty::Closure(d, _) => go.push(("closure", s(self.path(*d)))),
                                     _ => {}
                                 }
@@ -897,8 +913,8 @@ impl<'tcx> Dumper<'tcx> {
                     t.push(("expected", J::Bool(*expected)));
                     let (kind, detail) = match &**msg {
                         mir::AssertKind::BoundsCheck { .. } => ("BoundsCheck", String::new()),
-                        mir::AssertKind::Overflow(op, _, _) => ("Overflow", format!("{:?}", op)),
-                        mir::AssertKind::OverflowNeg(_) => ("OverflowNeg", String::new()),
+                        mir::AssertKind::Overflow(op, l, _) => ("Overflow", format!("{:?}:{}", op, self.ty_s(l.ty(&body.local_decls, tcx)))),
+                        mir::AssertKind::OverflowNeg(l) => ("OverflowNeg", self.ty_s(l.ty(&body.local_decls, tcx))),
                         mir::AssertKind::DivisionByZero(_) => ("DivisionByZero", String::new()),
                         mir::AssertKind::RemainderByZero(_) => ("RemainderByZero", String::new()),
                         mir::AssertKind::MisalignedPointerDereference { .. } => ("MisalignedPointerDereference", String::new()),
